@@ -7,6 +7,7 @@ QUICK = [
     'C[C@H](N)O', 'F[C@](Cl)(Br)I', 'F/C=C/Cl', 'C[C@H](O)/C=C/F', 'FC=[C@]=CCl', 'C[C@H]1CCO1', '[Fe+2].[Cl-].[Cl-]',
     'C[C@]12CCC[C@H]1C2', 'C[Si](C)(C)C', 'B(O)O', 'CC1=CC=C1', 'C[C@]([2H])(O)F', '[H][C@](C)(N)O',
     'CC1C[C@@]12CCO2', 'C[C@H](N)O.O', 'O.F[C@H](Cl)Br', 'C[C@H](O)[C@H](F)[C@@H](C)O', 'C/C=C/[C@H](O)/C=C\\C', 'CC(C)(C)C', 'N#[N+][O-]', 'C[N+](=O)[O-]', 'O=C=O', '[NH4+]', 'Cl[Pt](Cl)(N)N',
+    'C1CCC/C=C/CC1', 'C1CCC/C=C\\CC1',   # smallest ring with a stereogenic endocyclic double bond
     'C1CC1.C1CCC1',   # components of one Morgan class (rings of one atom type) differ only in size
     'CB1(C)~[H]B(C)(C)~[H]1',   # ring of alternating ordinary / coordinate bonds: equivalent neighbours differ in the bond only
 ]
